@@ -16,10 +16,14 @@ LEVEL_NOTE = ("Model fidelity is checked, not proved (correspondence on window e
 OPS = {"indices", "indices_expr", "meta", "all_meta", "from_string", "to_string", "serde"}
 TOL = {"indices": ("ulp", 2), "indices_expr": ("ulp", 16)}
 DEFAULT_TOL = ("exact",)
+# the model of these ops IS "the crystal's published Sellmeier and thermo-optic equation": a disagreement is a failing input
+REFERENCE_OPS = {"indices": ("C01.published", lambda body: "published/" + body.split()[1]),
+                 "indices_expr": ("C01.published_expr", lambda body: "published_expr/" + body.split()[1])}
 RULE = ("family crystal: per crystal window edges ±2 ulp and 1.2 µm ±3 ulp × T∈{−50,20,24.5,200} °C; n log-spaced jittered "
-        "wavelengths and n/4 round-nm wavelengths × fixed/random T; n/4 wavelengths × T for each of 13 user expressions "
-        "(CrystalType::Expr transcribed from the same formulas, KTP one per n_y branch) against the built-in model, 16 ulp "
-        "(observed ≤ 1); all META records, ids, near-miss id strings, serde; predicate grid 2 000 (quick) / 50 000 (thorough) "
+        "wavelengths and n/4 round-nm wavelengths × fixed/random T; 13 user expressions (CrystalType::Expr transcribed from the "
+        "same formulas, KTP one per n_y branch) evaluated on ONE shared 2n-point (λ,T) grid, interleaved crystal by crystal per point "
+        "(second half in reverse crystal order), each against the built-in on the real code (16 ulp) and against the model; a sample "
+        "of ≤ 12 000 earlier evaluations re-evaluated at the end newest-first then oldest-first, bit-exact (history independence); all META records, ids, near-miss id strings, serde; predicate grid 2 000 (quick) / 50 000 (thorough) "
         "wavelengths per crystal and temperature (4 fixed + 2/6 random), temperature law on 300/4 000 random (λ, T) per crystal")
 CHECKER_MODULES = ["Spdc.Real.CrystalLemmas", "Spdc.Real.CrystalAxes", "Spdc.Real.CrystalCert", "Spdc.Real.CrystalClass"]
 TRUSTED_EXTRA = ["tools/c01_cert.py only proposes partition points (untrusted); every chain is re-evaluated by the Lean kernel (decide +kernel on the ℚ instance of the model)",
